@@ -15,6 +15,15 @@ structure CBlock where
   utxoDelta : Int
 deriving Repr, BEq
 
+/-- net UTXO count change of a block: outputs created minus inputs spent -/
+def blockUtxoDelta (b : Block) : Int :=
+  (b.txs.map (fun tx => (tx.outs.length : Int) - (if tx.coinbase then 0 else (tx.ins.length : Int)))).foldl (· + ·) 0
+
+/-- `CachedBlock::utxo_delta`: recomputed from the block when the metrics have not been
+    computed (they are not serialized across upgrades) -/
+def CBlock.utxoDeltaNow (c : CBlock) : Int :=
+  if c.feeRates.isNone then blockUtxoDelta c.blk else c.utxoDelta
+
 def CBlock.hash (c : CBlock) : Nat := c.blk.hash
 def CBlock.diff (c : CBlock) : Nat := c.blk.diff
 
